@@ -87,7 +87,7 @@ func genConc9(prop string, seed uint64, tier string) Scenario {
 			sc.Ops = append(sc.Ops, Op{K: "api", T: r.n(napi), P: r.n(numAPI9), M: r.n(4), I: r.n(16), D: r.weighted([]int{8, 4, 4, 3, 2, 2, 1, 1, 1, 1}), X: r.pick(0, 0, 0, 1)})
 		} else {
 			// X=1: the frame arrives at a minute boundary, together with the purge tick
-			sc.Ops = append(sc.Ops, Op{K: "frame", T: 20 + r.n(nnodes), P: r.n(10), M: r.n(4), I: r.n(16), N: r.n(64), D: r.weighted([]int{6, 4, 4, 3, 3, 2, 2, 1, 1, 2}), X: r.pick(0, 0, 0, 1)})
+			sc.Ops = append(sc.Ops, Op{K: "frame", T: 20 + r.n(nnodes), P: r.weighted([]int{3, 3, 3, 2, 5, 3, 3, 2, 2, 2, 2}), M: r.n(4), I: r.n(16), N: r.n(64), D: r.weighted([]int{6, 4, 4, 3, 3, 2, 2, 1, 1, 2}), X: r.pick(0, 0, 0, 1)})
 		}
 	}
 	// faults on the wire
@@ -96,7 +96,7 @@ func genConc9(prop string, seed uint64, tier string) Scenario {
 		sc.Ops = append(sc.Ops, Op{K: "fault", T: 40, P: r.n(3), N: 1 + r.n(3), D: r.n(10)})
 	}
 	// the closer: D selects when (possibly in the middle of the traffic)
-	sc.Ops = append(sc.Ops, Op{K: "close", T: 50, D: r.n(10), X: r.weighted([]int{3, 2, 2, 2, 2, 1, 1, 1, 1}), P: r.n(2)})
+	sc.Ops = append(sc.Ops, Op{K: "close", T: 50, D: r.n(10), X: r.weighted([]int{3, 2, 2, 2, 2, 1, 1, 1, 1}), P: r.n(2), I: r.pick(0, 0, 1), N: r.n(2)})
 	return sc
 }
 
@@ -239,11 +239,13 @@ func runConc9(e *exec) {
 					return 0, w.S.Release(world.HW(clientMAC(o.M)))
 				case aCheckTables:
 					apiUserCheckTables(e, "quiescent point (concurrent run)")
+				// (Session.DHCPv4Update is not offered here: the statement's API list does not include it;
+				// it is the DHCP handler's call, made from the packet loop)
 				}
 				return 0, nil
 			})
 		case "frame":
-			if o.X == 1 || o.P%10 == 9 {
+			if o.X == 1 || o.P%11 == 9 {
 				simrt.Sleep(int64(time.Minute) - simrt.Now()%int64(time.Minute))
 				if isClosing() {
 					return
@@ -253,7 +255,15 @@ func runConc9(e *exec) {
 			pr["frame"]++
 			zero := netip.MustParseAddr("0.0.0.0")
 			bc := netip.MustParseAddr("255.255.255.255")
-			switch o.P % 10 {
+			switch o.P % 11 {
+			case 10:
+				// a message of another DHCP server (OFFER or ACK), as seen on a shared segment: to the
+				// client port or, misdirected, to the server port
+				x := clientIP(o.I).As4()
+				typ := byte(2 + 3*(o.N%2))
+				port := uint16(68 - o.I%2)
+				d := fb.DHCP{Op: 2, XID: [4]byte{9, byte(a.id), byte(len(a.in)), byte(o.M)}, CHAddr: m, YIAddr: netip.AddrFrom4(x), Options: []fb.DHCPOpt{{Code: 53, Data: []byte{typ}}, {Code: 54, Data: []byte{192, 168, 0, 1}}}}
+				a.inject(i, "foreign-server", 0, fb.Eth(fb.Broadcast, u.MACs[world.MRouter], 0x0800, fb.IPv4(u.RouterIP, bc, 17, 64, 1, fb.UDP(67, port, d.Bytes()))))
 			case 9:
 				// a burst at the purge tick: every client from its usual and from a second address
 				// (known hosts take the read-locked fast path, new ones the write lock), while purge
@@ -277,7 +287,7 @@ func runConc9(e *exec) {
 			case 3:
 				a.inject(i, "probe", 0, fb.Eth(fb.Broadcast, m, 0x0806, fb.ARP(1, m, zero, fb.MAC{}, clientIP(o.I))))
 			case 4:
-				ra, rmac, rip := raOf(u, Op{N: o.N, P: o.I, X: o.I % 5})
+				ra, rmac, rip := raOf(u, Op{N: o.N, P: o.I, X: o.I % 5, S: o.M % 2}) // two routers
 				dst := netip.MustParseAddr("ff02::1")
 				a.inject(i, "ra", 0, fb.Eth(fb.MulticastMAC6(dst), rmac, 0x86dd, fb.IPv6(rip, dst, 58, 255, fb.ICMP6(rip, dst, 134, 0, ra.Body()))))
 			case 5:
@@ -310,6 +320,30 @@ func runConc9(e *exec) {
 			// wait a while, then close everything while the others may still be busy
 			simrt.Sleep(int64(time.Duration(o.X) * 67 * time.Second)) // up to nine minutes of traffic, purge ticks and ageing
 			simrt.Close(closing)
+			var second simsync.WaitGroup
+			if o.I == 1 {
+				// Close is part of the control API "any number of goroutines" may use: a second caller
+				// closes everything at the same time, in the opposite order
+				second.Add(1)
+				simrt.GoHarness(60, func() {
+					defer second.Done()
+					if (o.P == 0) != (o.N == 1) { // N=1: the same order as the first caller
+						w.S.Close()
+						w.DNS.Close()
+						w.DHCP.Close()
+						w.ICMP6.Close()
+						w.ARP.Close()
+					} else {
+						w.ARP.Close()
+						w.ICMP6.Close()
+						w.DHCP.Close()
+						w.DNS.Close()
+						w.S.Close()
+					}
+				})
+				pr["concurrent_second_close"]++
+			}
+			defer second.Wait()
 			a.call(i, o, func() (int64, error) {
 				if o.P == 0 {
 					w.ARP.Close()
